@@ -18,7 +18,7 @@ SOLVERS = [("ito", "euler"), ("stratonovich", "euler_heun"), ("stratonovich", "h
 
 
 def cases(tier, seed):
-    reps = 3 if tier == "quick" else 200
+    reps = 3 if tier == "quick" else 600
     out = []
     for si, (st, method) in enumerate(SOLVERS):
         for nt in ("diagonal", "scalar", "additive"):
